@@ -419,6 +419,7 @@ def _ref_task(item):
     writes = S.WriteRecorder()
     warm.install()
     writes.install()
+    writes.install_process_setters()
     O.execute(Z.op_by_name[opname], env)
     writes.uninstall()
     warm.uninstall()
